@@ -5,7 +5,8 @@ from .common import NONE
 
 TIER = os.environ.get("VERIF_TIER", "quick")
 
-RVIAS = ["rows", "flat", "shape", "rowview", "colview", "stepview", "revview", "listview", "ufunc", "assigned"]
+RVIAS = ["rows", "flat", "shape", "rowview", "colview", "stepview", "revview", "listview", "ufunc", "assigned", "nprows", "pylists"]
+SPELLINGS = ["plain", "tuple", "empty", "numpy", "numpy32", "pylist"]
 PRES = [None, ["sum"], ["repr"], ["unique"], ["max"], ["rowmean"], ["size", "sum"], ["any", "pad"], ["colsum"], ["sum", "unique"]]
 
 
@@ -25,7 +26,7 @@ def variants(prop, case):
             return [{"lkind": ["list", "array", "tuple"][h % 3]}]     # a RaggedShape object is not "row lengths": see DESIGN 6.3
         return [{"layout": ["C", "F", "T", "strided"][h % 4]}]
     if op in ("getitem", "setitem"):
-        sp = ["plain", "tuple", "empty", "numpy", "numpy32"][h % 5]
+        sp = SPELLINGS[h % len(SPELLINGS)]
         v = RVIAS[(h // 3) % len(RVIAS)]
         out = [{"via": "flat", "spelling": "plain"}, {"via": v, "spelling": sp, "pre": PRES[(h // 64) % len(PRES)]}]
         if op == "setitem":
@@ -33,7 +34,7 @@ def variants(prop, case):
             out[1]["collist"] = bool(h & 16)
         return out
     if op == "ufunc":
-        return [{"via": "flat", "how": "ufunc"}, {"via": RVIAS[h % len(RVIAS)], "how": ["ufunc", "operator"][(h // 16) % 2], "pre": PRES[(h // 64) % len(PRES)]}]
+        return [{"via": "flat", "how": "ufunc"}, {"via": RVIAS[h % len(RVIAS)], "how": ["ufunc", "operator"][(h // 16) % 2], "pre": PRES[(h // 64) % len(PRES)], "zerod": bool(h & 128)}]
     if op == "reduce":
         return [{"via": "flat", "how": "method"}, {"via": RVIAS[h % len(RVIAS)], "how": ["method", "np", "positional"][(h // 16) % 3], "pre": PRES[(h // 64) % len(PRES)]}]
     if op in ("scan", "nonzero", "col"):
@@ -46,7 +47,7 @@ def variants(prop, case):
     if op in ("where", "subset"):
         return [{"via": "flat", "via2": "flat"}, {"via": RVIAS[h % len(RVIAS)], "via2": RVIAS[(h // 16) % len(RVIAS)]}]
     if op == "ragged_slice":
-        return [{"via": "flat"}, {"via": RVIAS[h % len(RVIAS)], "how": ["fn", "nps"][(h // 16) % 2]}]
+        return [{"via": "flat"}, {"via": RVIAS[h % len(RVIAS)], "how": ["fn", "nps"][(h // 16) % 2], "layout": ["C", "F", "T", "strided"][(h // 32) % 4]}]
     if op.startswith("bit_"):
         return [{"indt": ["u8", "u4", "u2", "u1", "i8", "i4"][h % 6], "npidx": bool(h & 8), "listkind": ["list", "array"][(h // 16) % 2], "again": bool(h & 64),
                  "repack": bool(h & 128), "pre_w": [0, 1, 2, 3][(h // 256) % 4]}]
@@ -108,7 +109,7 @@ def nontrivial(prop, case):
 
 def heap_variants(prop, case):
     h = _h(case)
-    return [{"via0": "flat", "spelling": "plain"}, {"via0": RVIAS[h % len(RVIAS)], "spelling": ["plain", "tuple", "empty", "numpy", "numpy32"][(h // 16) % 5]}]
+    return [{"via0": "flat", "spelling": "plain"}, {"via0": RVIAS[h % len(RVIAS)], "spelling": SPELLINGS[(h // 16) % len(SPELLINGS)]}]
 
 
 def hash_variants(prop, case):
